@@ -171,11 +171,11 @@ func (g *Gen) Noise() string {
 // BadLine returns a line the codec rejects with an error (never a panic).
 func (g *Gen) BadLine() string {
 	return g.pick([]string{
-		"Qwhat.example.com,1.2.3.4",       // unknown record type
-		"+a.example.com,1.2.3.4,,,\\x",     // location does not unquote
-		"%,10.0.0.0/8,ec",                  // subnet without a location
-		"%ab,10.0.0.0/33,ec",               // bad CIDR
-		"Hwww.example.com,.,300,,1,alpn=",  // SVCB parameter rejected
+		"Qwhat.example.com,1.2.3.4",                // unknown record type
+		"+a.example.com,1.2.3.4,,,\\x",             // location does not unquote
+		"%,10.0.0.0/8,ec",                          // subnet without a location
+		"%ab,10.0.0.0/33,ec",                       // bad CIDR
+		"Hwww.example.com,.,300,,1,alpn=",          // SVCB parameter rejected
 		"Cwww.example.com,x.example.com,,,\\777\\", // trailing backslash in location
 		"?x",
 	})
